@@ -675,6 +675,20 @@ func ruleEffect(c *Ctx) {
 						bad = append(bad, r)
 					}
 				}
+				// the package initialiser fills package-level tables before any call can run: those
+				// writes are the tables' initial values (R-GLOBALS judges every later write)
+				if fn.Name() == "init" && fn.Parent() == nil && fn.Signature.Recv() == nil && len(bad) > 0 {
+					onlyGlobals := true
+					for _, r := range bad {
+						if !strings.HasPrefix(r, "global:") {
+							onlyGlobals = false
+						}
+					}
+					if onlyGlobals {
+						l.add("R-EFFECT", lab, key, b.posOf(s.ins), Discharged, "the package initialiser writes the initial value of "+strings.Join(bad, ", "), true)
+						continue
+					}
+				}
 				switch {
 				case len(bad) > 0:
 					if reason, ok := effectExceptions[fname(fn)+"|"+s.kind]; ok {
